@@ -37,6 +37,22 @@ func staticCodePipeline(c *Ctx, g *load.G) {
 	}
 	var pipe, tpl, tail []string
 	nDone := 0
+	// the builder flag that says "the emitted grammar names a Unicode class": the boolean field the class writer sets
+	// (whatever it is called)
+	rtField := "rangeTable"
+	if wc := load.FuncDecl(g.Pkg("builder"), "builder", "writeCharClassMatcher"); wc != nil {
+		wb := recvName(wc)
+		for _, h := range withHelpers(g.Pkg("builder"), wc, "writeExpr", "writeExprCode") {
+			ast.Inspect(h.Body, func(n ast.Node) bool {
+				if as, ok := n.(*ast.AssignStmt); ok && len(as.Lhs) == 1 && len(as.Rhs) == 1 && nospace(as.Rhs[0]) == "true" {
+					if sel, ok := as.Lhs[0].(*ast.SelectorExpr); ok && nospace(sel.X) == wb {
+						rtField = sel.Sel.Name
+					}
+				}
+				return true
+			})
+		}
+	}
 	execRe := regexp.MustCompile(`^(.*)\.Execute\((\$[0-9]+|&\$[0-9]+),`)
 	for _, p := range c.builderNorm().normPaths(fd) {
 		if p.hasCall("panic(") {
@@ -147,11 +163,11 @@ func staticCodePipeline(c *Ctx, g *load.G) {
 		if nW != 1 {
 			tail = append(tail, "the runtime is not written exactly once after the lines were selected")
 		}
-		if helper != p.holds(b+".rangeTable") || (!helper && !p.holds("!"+b+".rangeTable")) {
+		if helper != p.holds(b+"."+rtField) || (!helper && !p.holds("!"+b+"."+rtField)) {
 			tail = append(tail, "the rangeTable helper is not written exactly under "+b+".rangeTable (classes: []*unicode.RangeTable{rangeTable(..)} needs it; without classes it is dead code vet rejects)")
 		}
 		for _, f := range p[hi:].facts() {
-			if f != b+".rangeTable" && f != "!"+b+".rangeTable" {
+			if f != b+"."+rtField && f != "!"+b+"."+rtField {
 				tail = append(tail, "writing the runtime depends on `"+abbreviate(f)+"`")
 			}
 		}
